@@ -48,9 +48,45 @@ def prove_if_present(chk, names, gens=None):
 
 # ------------------------------------------------------------------------------- module specs
 def spec_id(spec):
+    tag = ("+" + spec["opt_tag"]) if spec.get("opt_tag") else ""        # option variants (`option_variant`) of one module are distinct cases
     if "hex" in spec:
-        return (spec.get("id") or ("hex:" + spec["hex"][:24])) + ("+nostart" if spec.get("no_start") else "")
-    return "%s:%s:%d%s" % (spec["seed"], spec["profile"], spec["index"], ("+core" if spec.get("core_variant") else "") + ("+nostart" if spec.get("no_start") else ""))
+        return (spec.get("id") or ("hex:" + spec["hex"][:24])) + ("+nostart" if spec.get("no_start") else "") + tag
+    return "%s:%s:%d%s" % (spec["seed"], spec["profile"], spec["index"], ("+core" if spec.get("core_variant") else "") + ("+nostart" if spec.get("no_start") else "")) + tag
+
+
+OPTION_SETS = (("-p",), ("-m",), ("-p", "-m"))
+
+
+def option_variant(spec, opts):
+    """The same module translated by the real w2c2 with output options `opts` (a subset of -p, -m); the options travel in the
+    spec (`w2c2_opts`) so that a replay file reproduces them.  None when the module cannot be translated with -m for the recorded
+    reason (C09 `m-prefix-export-named-fN-collides`: a function export literally named f<N>; generated modules get neutral names)."""
+    s = dict(spec, w2c2_opts=list(spec.get("w2c2_opts") or []) + list(opts), opt_tag="".join(opts))
+    if "-m" in opts:
+        if "hex" in spec:
+            m = decode(bytes.fromhex(spec["hex"]))
+            if any(e.kind == "func" and re.fullmatch(rb"f\d+", bytes(e.name)) for e in m.exports):
+                return None
+        else:
+            s["rename_exports"] = True
+    return s
+
+
+def option_variants(specs, per_set, sets=OPTION_SETS):
+    """`per_set` modules for every option set, taken round-robin from `specs` (every set sees different modules first)"""
+    out = []
+    if not specs:
+        return out
+    for k, opts in enumerate(sets):
+        n = 0
+        for j in range(len(specs)):
+            if n >= per_set:
+                break
+            v = option_variant(specs[(j + k * per_set) % len(specs)], opts)
+            if v is not None:
+                out.append(v)
+                n += 1
+    return out
 
 
 def load_module(spec):
